@@ -139,8 +139,19 @@ def cpBatchListLoop : Nat → List Bytes → Bytes
     if fs.isEmpty then []
     else 40 :: (fs.take batchSize).flatten ++ 101 :: cpBatchListLoop fuel (fs.drop batchSize)
 
-def cpBatchList (p : Nat) (fs : List Bytes) : Bytes :=
+/-- `_batch_appends` of the pure-Python pickler: batches of 1000; a batch of one item is written with APPEND;
+    a batch shorter than 1000 ends the loop. -/
+def pyBatchLoop (c1 cn : UInt8) : Nat → List Bytes → Bytes
+  | 0, _ => []
+  | fuel + 1, fs =>
+    (if (fs.take batchSize).length > 1 then 40 :: (fs.take batchSize).flatten ++ [cn]
+     else if (fs.take batchSize).length = 1 then (fs.take batchSize).flatten ++ [c1] else []) ++
+    (if (fs.take batchSize).length < batchSize then [] else pyBatchLoop c1 cn fuel (fs.drop batchSize))
+
+/-- `py`: the pure-Python pickler (`pickle._Pickler`) instead of the C one — they differ in how the last batch is written. -/
+def cpBatchList (py : Bool) (p : Nat) (fs : List Bytes) : Bytes :=
   if p = 0 then (fs.map (· ++ [97])).flatten
+  else if py then pyBatchLoop 97 101 (fs.length + 1) fs
   else match fs with
     | [] => []
     | [f] => f ++ [97]
@@ -154,8 +165,9 @@ def cpBatchDictLoop : Nat → List Bytes → Bytes
     40 :: (fs.take batchSize).flatten ++ 117 ::
       (if fs.length ≥ batchSize then cpBatchDictLoop fuel (fs.drop batchSize) else [])
 
-def cpBatchDict (p : Nat) (fs : List Bytes) : Bytes :=
+def cpBatchDict (py : Bool) (p : Nat) (fs : List Bytes) : Bytes :=
   if p = 0 then (fs.map (· ++ [115])).flatten
+  else if py then pyBatchLoop 115 117 (fs.length + 1) fs
   else match fs with
     | [] => []
     | [f] => f ++ [115]
@@ -167,7 +179,7 @@ def cpTupleClose (p l n : Nat) : Bytes :=
 
 mutual
 /-- `save(obj)`: the bytes written and the memo counter afterwards; `none` = outside the model. -/
-def cpSave (p : Nat) : PyObj → Nat → Option (Bytes × Nat)
+def cpSave (py : Bool) (p : Nat) : PyObj → Nat → Option (Bytes × Nat)
   | .none, n => some ([78], n)
   | .bool b, n => some ((encodeBool (ecfg p) b).chunks.flatten, n)
   | .int i, n => (cpInt p i).map (·, n)
@@ -177,35 +189,35 @@ def cpSave (p : Nat) : PyObj → Nat → Option (Bytes × Nat)
   | .bytearray s, n => (cpBytearray p s).map fun b => (b ++ cpPut p n, n + 1)
   | .tuple xs, n =>
     if xs.isEmpty then some (if p ≥ 1 then [41] else [40, 116], n)
-    else match cpSaveList p xs n with
+    else match cpSaveList py p xs n with
       | some (fs, n') =>
         some ((if p ≥ 2 ∧ xs.length ≤ 3 then [] else [40]) ++ fs.flatten ++ cpTupleClose p xs.length n', n' + 1)
       | none => none
   | .list xs, n =>
-    match cpSaveList p xs (n + 1) with
-    | some (fs, n') => some ((if p ≥ 1 then [93] else [40, 108]) ++ cpPut p n ++ cpBatchList p fs, n')
+    match cpSaveList py p xs (n + 1) with
+    | some (fs, n') => some ((if p ≥ 1 then [93] else [40, 108]) ++ cpPut p n ++ cpBatchList py p fs, n')
     | none => none
   | .dict kvs, n =>
-    match cpSavePairs p kvs (n + 1) with
-    | some (fs, n') => some ((if p ≥ 1 then [125] else [40, 100]) ++ cpPut p n ++ cpBatchDict p fs, n')
+    match cpSavePairs py p kvs (n + 1) with
+    | some (fs, n') => some ((if p ≥ 1 then [125] else [40, 100]) ++ cpPut p n ++ cpBatchDict py p fs, n')
     | none => none
-def cpSaveList (p : Nat) : List PyObj → Nat → Option (List Bytes × Nat)
+def cpSaveList (py : Bool) (p : Nat) : List PyObj → Nat → Option (List Bytes × Nat)
   | [], n => some ([], n)
   | x :: xs, n =>
-    match cpSave p x n with
+    match cpSave py p x n with
     | some (b, n1) =>
-      match cpSaveList p xs n1 with
+      match cpSaveList py p xs n1 with
       | some (fs, n2) => some (b :: fs, n2)
       | none => none
     | none => none
-def cpSavePairs (p : Nat) : List (PyObj × PyObj) → Nat → Option (List Bytes × Nat)
+def cpSavePairs (py : Bool) (p : Nat) : List (PyObj × PyObj) → Nat → Option (List Bytes × Nat)
   | [], n => some ([], n)
   | (k, v) :: r, n =>
-    match cpSave p k n with
+    match cpSave py p k n with
     | some (bk, n1) =>
-      match cpSave p v n1 with
+      match cpSave py p v n1 with
       | some (bv, n2) =>
-        match cpSavePairs p r n2 with
+        match cpSavePairs py p r n2 with
         | some (fs, n3) => some ((bk ++ bv) :: fs, n3)
         | none => none
       | none => none
@@ -213,16 +225,16 @@ def cpSavePairs (p : Nat) : List (PyObj × PyObj) → Nat → Option (List Bytes
 end
 
 /-- `dumps(obj, p)` without framing: PROTO (from 2 on), the object, STOP. -/
-def cpDumpsBody (p : Nat) (v : PyObj) : Option Bytes :=
-  (cpSave p v 0).map fun (b, _) => b ++ [46]
+def cpDumpsBody (py : Bool) (p : Nat) (v : PyObj) : Option Bytes :=
+  (cpSave py p v 0).map fun (b, _) => b ++ [46]
 
-def cpDumps (p : Nat) (v : PyObj) : Option Bytes :=
-  (cpDumpsBody p v).map fun b => (if p ≥ 2 then [0x80, UInt8.ofNat p] else []) ++ b
+def cpDumps (py : Bool) (p : Nat) (v : PyObj) : Option Bytes :=
+  (cpDumpsBody py p v).map fun b => (if p ≥ 2 then [0x80, UInt8.ofNat p] else []) ++ b
 
 /-- `dumps(obj, p)` as CPython frames it when everything fits one frame (protocol 4+: a FRAME
     with the length of what follows, when that is at least 4 bytes). -/
-def cpDumpsFramed (p : Nat) (v : PyObj) : Option Bytes :=
-  (cpDumpsBody p v).map fun b =>
+def cpDumpsFramed (py : Bool) (p : Nat) (v : PyObj) : Option Bytes :=
+  (cpDumpsBody py p v).map fun b =>
     (if p ≥ 2 then [0x80, UInt8.ofNat p] else []) ++
       (if p ≥ 4 ∧ b.length ≥ 4 then 0x95 :: le8 b.length else []) ++ b
 
